@@ -16,12 +16,14 @@ UNSERVABLE = ("ReadUnaligned", "FreeOutOfRange", "ReadInvalid", "RootsOutOfRange
 
 
 def leg_m(wd, tier):
-    cfg = "Renter_mc.cfg" if tier == "quick" else "Renter_mc3.cfg"
-    r = vlib.run_tlc(wd, "Renter", cfg, workers=8, timeout=900)
-    vlib.tlc_must_pass(r, "Renter fault space / acceptance rule")
-    log("  M: Renter (%s): %d distinct states, %d transitions, depth %d, %.1fs; SuccessImpliesBound, HonestSucceeds, WireNormalForm, ObeysRule, PlansAgree hold" %
-        (cfg, r.distinct, r.generated, r.depth, r.wall))
-    return [r]
+    rs = []
+    for cfg in (["Renter_mc.cfg"] if tier == "quick" else ["Renter_mc.cfg", "Renter_mc3.cfg"]):
+        r = vlib.run_tlc(wd, "Renter", cfg, workers=8, timeout=900)
+        vlib.tlc_must_pass(r, "Renter fault space / acceptance rule (%s)" % cfg)
+        log("  M: Renter (%s): %d distinct states, %d transitions, depth %d, %.1fs; SuccessImpliesBound, HonestSucceeds, WireNormalForm, ObeysRule, PlansAgree hold" %
+            (cfg, r.distinct, r.generated, r.depth, r.wall))
+        rs.append(r)
+    return rs
 
 
 def fault_key(f):
@@ -212,7 +214,7 @@ def run(tier):
         "exhaustive": True,
         "samples": vlib.trim_samples(rr["samples"], 3),
         "model": {"module": "Renter", "cfg": ms[0].cmd.split("-config ")[1].split()[0].split("/")[-1],
-                  "constants": "11 client functions; every fault plan of up to %d catalogue faults on distinct fields (+ random mutations)" % (2 if tier == "quick" else 3)},
+                  "constants": "15 client functions + 5 unservable input classes; every fault plan of up to %d catalogue faults on distinct fields (+ random mutations)" % (2 if tier == "quick" else 3)},
         "replay": {k: rr[k] for k in ("states", "edges", "paths", "covered", "cases", "steps", "full")},
         "replay_outcomes": {k: v for k, v in cnt.items() if not k.startswith("rpc_")},
         "cases_per_rpc": {k[4:]: v for k, v in cnt.items() if k.startswith("rpc_")},
@@ -262,15 +264,16 @@ def selftest():
         ok = ok and good
     v = vlib.Verdict("C10-selftest"); v.findings = []
     leg_r(wd, "quick", binary, v, stub="lenient-client", only=lambda c: c["variant"] == 0)
-    bound_rpcs = {"ReadSector", "WriteSector", "VerifySector", "SectorRoots", "AppendSectors", "FreeSectors", "FundAccounts", "ReplenishAccounts", "ReplenishPools"}
+    bound_rpcs = {"ReadSector", "WriteSector", "VerifySector", "SectorRoots", "AppendSectors", "FreeSectors", "FundAccounts", "ReplenishAccounts", "ReplenishPools",
+                  "FormContract", "RenewContract", "RefreshFull", "RefreshPartial"}
     hit = {m["sig"].split(":")[1] for m in v.violations if m["sig"].endswith(("accepted-unbound", "accepted-must-reject"))}
     good = bound_rpcs <= hit
     log("selftest 2a (lenient client stub caught for every bound RPC: %d mismatches, missing %s): %s" % (len(v.violations), sorted(bound_rpcs - hit), "ok" if good else "FAILED"))
     ok = ok and good
     v = vlib.Verdict("C10-selftest"); v.findings = []
     leg_r(wd, "quick", binary, v, stub="rejecting-client", only=lambda c: c["variant"] == 0 and not c["faults"])
-    good = len([m for m in v.violations if m["sig"].endswith("honest-failed")]) == 11   # all but the unservable input classes
-    log("selftest 2b (client that rejects everything fails HonestSucceeds for all 11 RPCs): %s" % ("ok" if good else "FAILED"))
+    good = len([m for m in v.violations if m["sig"].endswith("honest-failed")]) == 15   # all but the unservable input classes
+    log("selftest 2b (client that rejects everything fails HonestSucceeds for all 15 RPCs): %s" % ("ok" if good else "FAILED"))
     ok = ok and good
     # corrupted trace
     v = vlib.Verdict("C10-selftest"); v.findings = []
